@@ -93,3 +93,23 @@ Proof.
     + apply elem_of_union_l, elem_of_union_l, elem_of_union_l. apply elem_of_dom. exists (p0, s0). apply map_filter_lookup_Some. auto.
 Qed.
 Print Assumptions C11_sync_classification.
+
+(* ---- the cache a restart loads ----
+   "previously saved cache" at a request boundary: with the save at the end of getPendingUpdates
+   (extracted from pkg/resmgr/nri.go on every run as [gen_flush_saves]) the cache file is in line
+   with the live cache after EVERY request of every history in which a request that does not
+   flush makes no writes (the guard of C05; it fails for failing requests: known finding K5).
+   Hence a restart at any request boundary starts from the resources the runtime was told. *)
+From NV Require Import Persist_Model Persist_Proofs Gen.Gen_Flush.
+
+Theorem C11_cache_file_fresh_at_request_boundaries : forall rs,
+  forallb preq_guard rs = true -> fold_left (pexec gen_flush_saves) rs ∅ = ∅.
+Proof. exact fresh_at_boundaries. Qed.
+Print Assumptions C11_cache_file_fresh_at_request_boundaries.
+
+(* the statement is not vacuous and does depend on that save: without it a single flushing
+   request leaves the cache file stale *)
+Theorem C11_cache_file_stale_without_save_refuted :
+  exists rs, forallb preq_guard rs = true /\ fold_left (pexec false) rs ∅ <> ∅.
+Proof. exact stale_without_save. Qed.
+Print Assumptions C11_cache_file_stale_without_save_refuted.
